@@ -18,36 +18,38 @@ use std::io;
 // integer plumbing (bitstream-io's numeric traits are deliberately minimal)
 // ---------------------------------------------------------------------------
 
-/// builds any `UnsignedInteger` from the low bytes of a u64
+/// builds any `UnsignedInteger` from the low bits of a u64 (loop-free)
 #[inline]
 pub fn u_from_u64<U: UnsignedInteger>(v: u64) -> U {
-    let mut buf = U::buffer();
-    let src = v.to_le_bytes();
-    {
-        let dst = buf.as_mut();
-        let n = if dst.len() < 8 { dst.len() } else { 8 };
-        let mut k = 0;
-        while k < n {
-            dst[k] = src[k];
-            k += 1;
-        }
-    }
-    U::from_le_bytes(buf)
+    let b = v.to_le_bytes();
+    let mut out = U::from_u8(b[0]);
+    out |= U::from_u8(b[1]).checked_shl(8).unwrap_or(U::ZERO);
+    out |= U::from_u8(b[2]).checked_shl(16).unwrap_or(U::ZERO);
+    out |= U::from_u8(b[3]).checked_shl(24).unwrap_or(U::ZERO);
+    out |= U::from_u8(b[4]).checked_shl(32).unwrap_or(U::ZERO);
+    out |= U::from_u8(b[5]).checked_shl(40).unwrap_or(U::ZERO);
+    out |= U::from_u8(b[6]).checked_shl(48).unwrap_or(U::ZERO);
+    out |= U::from_u8(b[7]).checked_shl(56).unwrap_or(U::ZERO);
+    out
 }
 
-/// low 64 bits of any `UnsignedInteger`
+/// low 64 bits of any `UnsignedInteger` (loop-free)
 #[inline]
 pub fn u_to_u64<U: UnsignedInteger>(v: U) -> u64 {
-    let b = v.to_le_bytes();
-    let src = b.as_ref();
-    let mut out = [0u8; 8];
-    let n = if src.len() < 8 { src.len() } else { 8 };
-    let mut k = 0;
-    while k < n {
-        out[k] = src[k];
-        k += 1;
-    }
-    u64::from_le_bytes(out)
+    let byte = |k: u32| -> u64 {
+        match v.checked_shr(8 * k) {
+            Some(x) => u64::from(x.to_u8()),
+            None => 0,
+        }
+    };
+    byte(0)
+        | (byte(1) << 8)
+        | (byte(2) << 16)
+        | (byte(3) << 24)
+        | (byte(4) << 32)
+        | (byte(5) << 40)
+        | (byte(6) << 48)
+        | (byte(7) << 56)
 }
 
 #[inline]
@@ -106,6 +108,12 @@ pub struct Script<'a> {
     pub vals: &'a [u64],
     pub i: usize,
     pub eof_at: usize,
+    /// tripwire: index of the first read that must never happen (a harness
+    /// that pins an illegal field at slot k sets this to k+1).  A read at or
+    /// beyond it is reported as a failed check under its real path condition;
+    /// the path is then cut so that symbolic execution does not walk the rest
+    /// of the parser along paths that have already returned an error.
+    pub trip_at: usize,
 }
 
 impl<'a> Script<'a> {
@@ -114,6 +122,7 @@ impl<'a> Script<'a> {
             vals,
             i: 0,
             eof_at: vals.len(),
+            trip_at: usize::MAX,
         }
     }
 }
@@ -121,10 +130,17 @@ impl<'a> Script<'a> {
 impl ValueSource for Script<'_> {
     #[inline]
     fn next(&mut self) -> Option<u64> {
-        if self.i < self.eof_at && self.i < self.vals.len() {
-            let v = self.vals[self.i];
-            self.i += 1;
-            Some(v)
+        // the index advances on every call, served or not, so that it stays a
+        // compile-time constant along every path (a symbolic index would make
+        // the pinned structural fields of a script symbolic again)
+        let k = self.i;
+        self.i = k + 1;
+        if k >= self.trip_at {
+            kani::assert(false, "stream read past the point where the input had to be rejected");
+            kani::assume(false);
+        }
+        if k < self.vals.len() && k < self.eof_at {
+            Some(self.vals[k])
         } else {
             None
         }
@@ -279,5 +295,238 @@ impl<S: ValueSource> BitRead for ModelBits<S> {
     #[inline]
     fn byte_align(&mut self) {
         self.pos = (self.pos + 7) / 8 * 8;
+    }
+}
+
+// ---------------------------------------------------------------------------
+// Reference model (oracle): one FLAC subframe decoded directly from RFC 9639
+// section 9.2, in i128 arithmetic, sharing no code with the crate.  It reads
+// through the same `ModelBits<Script>` so that it sees the same field values
+// as the code under test.
+// ---------------------------------------------------------------------------
+
+pub mod refmodel {
+    use super::{ModelBits, Script};
+    use bitstream_io::BitRead;
+
+    pub type R<'a> = ModelBits<Script<'a>>;
+
+    /// verdict of the reference decoder
+    #[derive(Clone, Copy, PartialEq, Eq)]
+    pub enum Verdict {
+        /// the stream is a valid subframe; the samples are in `out`
+        Valid,
+        /// the stream violates a MUST of the RFC
+        Invalid,
+        /// the RFC does not settle it / outside the model (e.g. value does not fit)
+        Unspecified,
+    }
+
+    #[inline]
+    fn u(r: &mut R, bits: u32) -> u128 {
+        // the script never ends inside a harness that uses the oracle
+        r.read_var::<u64>(bits).unwrap() as u128
+    }
+
+    #[inline]
+    fn s(r: &mut R, bits: u32) -> i128 {
+        // two's complement, most significant bit first
+        let raw = u(r, bits);
+        if bits == 0 {
+            0
+        } else if (raw >> (bits - 1)) & 1 == 1 {
+            raw as i128 - (1i128 << bits)
+        } else {
+            raw as i128
+        }
+    }
+
+    #[inline]
+    pub fn fits(v: i128, bits: u32) -> bool {
+        v >= -(1i128 << (bits - 1)) && v < (1i128 << (bits - 1))
+    }
+
+    /// residual section (RFC 9639 9.2.7) for a block of `n` samples with
+    /// predictor order `order`; writes residuals to out[order..n]
+    pub fn residuals(r: &mut R, order: usize, n: usize, out: &mut [i128]) -> Verdict {
+        let method = u(r, 2);
+        if method > 1 {
+            return Verdict::Invalid;
+        }
+        let pbits: u32 = if method == 0 { 4 } else { 5 };
+        let po = u(r, 4) as u32;
+        let pc: usize = 1usize << po;
+        if n % pc != 0 {
+            return Verdict::Invalid;
+        }
+        let plen = n >> po;
+        if plen < order {
+            return Verdict::Invalid;
+        }
+        if plen == order {
+            // an empty first partition: the RFC wording ("larger than") rules
+            // it out, decoders differ; the oracle takes no position
+            return Verdict::Unspecified;
+        }
+        let mut verdict = Verdict::Valid;
+        let mut idx = order;
+        let mut p = 0;
+        while p < pc {
+            let count = if p == 0 { plen - order } else { plen };
+            let param = u(r, pbits) as u32;
+            if param == (1 << pbits) - 1 {
+                let w = u(r, 5) as u32;
+                let mut k = 0;
+                while k < count {
+                    out[idx] = if w == 0 { 0 } else { s(r, w) };
+                    idx += 1;
+                    k += 1;
+                }
+            } else {
+                let mut k = 0;
+                while k < count {
+                    let q = r.read_unary::<1>().unwrap() as u128;
+                    let lsb = u(r, param);
+                    let folded = (q << param) | lsb;
+                    let v: i128 = if folded & 1 == 1 {
+                        -((folded >> 1) as i128) - 1
+                    } else {
+                        (folded >> 1) as i128
+                    };
+                    // residuals MUST fit a 32-bit signed integer and MUST NOT
+                    // be the most negative one
+                    if !(v > -(1i128 << 31) && v < (1i128 << 31)) {
+                        verdict = Verdict::Invalid;
+                    }
+                    out[idx] = v;
+                    idx += 1;
+                    k += 1;
+                }
+            }
+            p += 1;
+        }
+        verdict
+    }
+
+    /// one subframe of `n` samples at `bps` bits per sample (1..=33)
+    pub fn subframe(r: &mut R, bps: u32, n: usize, out: &mut [i128]) -> Verdict {
+        if u(r, 1) != 0 {
+            return Verdict::Invalid;
+        }
+        let t = u(r, 6) as u32;
+        let wasted = if u(r, 1) == 1 {
+            r.read_unary::<1>().unwrap() + 1
+        } else {
+            0
+        };
+        let kind_ok = t <= 1 || (8..=12).contains(&t) || t >= 32;
+        if !kind_ok {
+            return Verdict::Invalid;
+        }
+        if wasted >= bps {
+            return Verdict::Invalid;
+        }
+        let eb = bps - wasted;
+        let mut verdict = Verdict::Valid;
+        if t == 0 {
+            let v = s(r, eb);
+            let mut i = 0;
+            while i < n {
+                out[i] = v;
+                i += 1;
+            }
+        } else if t == 1 {
+            let mut i = 0;
+            while i < n {
+                out[i] = s(r, eb);
+                i += 1;
+            }
+        } else if t < 32 {
+            let order = (t - 8) as usize;
+            if order > n {
+                return Verdict::Invalid;
+            }
+            let mut i = 0;
+            while i < order {
+                out[i] = s(r, eb);
+                i += 1;
+            }
+            verdict = residuals(r, order, n, out);
+            if verdict == Verdict::Unspecified {
+                return verdict;
+            }
+            let mut i = order;
+            while i < n {
+                let p: i128 = match order {
+                    0 => 0,
+                    1 => out[i - 1],
+                    2 => 2 * out[i - 1] - out[i - 2],
+                    3 => 3 * out[i - 1] - 3 * out[i - 2] + out[i - 3],
+                    _ => 4 * out[i - 1] - 6 * out[i - 2] + 4 * out[i - 3] - out[i - 4],
+                };
+                out[i] += p;
+                i += 1;
+            }
+        } else {
+            let order = (t - 31) as usize;
+            if order > n {
+                return Verdict::Invalid;
+            }
+            let mut i = 0;
+            while i < order {
+                out[i] = s(r, eb);
+                i += 1;
+            }
+            let prec = u(r, 4) as u32;
+            if prec == 15 {
+                return Verdict::Invalid;
+            }
+            let prec = prec + 1;
+            let shift = s(r, 5);
+            if shift < 0 {
+                return Verdict::Invalid;
+            }
+            let mut c = [0i128; 32];
+            let mut i = 0;
+            while i < order {
+                c[i] = s(r, prec);
+                i += 1;
+            }
+            verdict = residuals(r, order, n, out);
+            if verdict == Verdict::Unspecified {
+                return verdict;
+            }
+            let mut i = order;
+            while i < n {
+                // coefficient (<= 15 bits) x sample (<= 34 bits here) fits i64;
+                // a history value outside 40 bits means an earlier sample already
+                // left the legal range: the oracle then takes no position
+                let mut acc: i64 = 0;
+                let mut j = 0;
+                while j < order {
+                    let h = out[i - 1 - j];
+                    if !fits(h, 40) {
+                        return Verdict::Unspecified;
+                    }
+                    acc += (c[j] as i64) * (h as i64);
+                    j += 1;
+                }
+                // arithmetic shift right == floor division by 2^shift
+                out[i] += (acc >> (shift as u32)) as i128;
+                i += 1;
+            }
+        }
+        // samples before re-adding the wasted bits MUST fit the effective width
+        let mut i = 0;
+        while i < n {
+            if !fits(out[i], eb) {
+                if verdict == Verdict::Valid {
+                    verdict = Verdict::Unspecified;
+                }
+            }
+            out[i] <<= wasted;
+            i += 1;
+        }
+        verdict
     }
 }
